@@ -7,6 +7,7 @@ harness (for every switch, for every address, the ordered list of ports it was s
 import struct
 from mc.engine import bfs
 from mc.report import Report, digest
+from mc.refs import c11_frames as FR
 
 PID = "C11"
 
@@ -38,9 +39,52 @@ def udp_frame (src, dst, tag=0, size=120):
   u = u[:6] + struct.pack("!H", c) + u[8:]
   return dst + src + b"\x08\x00" + _ip(17, u, sip, dip)
 
-def lldp_frame (src):
+def lldp_frame (src, dst=LLDP_DST):
   tlvs = b"\x02\x07\x04" + src + b"\x04\x02\x07\x31" + b"\x06\x02\x00\x78" + b"\x00\x00"
-  return LLDP_DST + src + b"\x88\xcc" + tlvs
+  return dst + src + b"\x88\xcc" + tlvs
+
+
+# ---- frame families (the "families" plans) -------------------------------------------------------------------
+# plain UDP frames whose total length sits on the boundaries of the switch's miss_send_len (128: a packet-in of a
+# buffered frame is cut when the frame is LONGER), the Ethernet minimum and the Ethernet maximum
+SIZES = (60, 127, 128, 129, 1514)
+FAMILIES_Q = tuple(FR.FAMILIES) + tuple("udp-%d" % n for n in SIZES)
+# violation-key class of a family: one defect, one key - the three first-fragment families share a class, the plain
+# UDP frames of any length have none (their keys stay what they always were)
+FAMKEY = {"frag-first": "ipv4-first-fragment", "frag-first-tcp": "ipv4-first-fragment", "frag-first-icmp": "ipv4-first-fragment"}
+# group addresses one byte away from the bridge-filtered block 01:80:c2:00:00:00-0f: ordinary multicast
+NEAR_LINK_LOCAL = ("0180c2000100", "0180c2010000", "0180c3000000", "0181c2000000", "0380c2000000")
+
+def famkey (fam):
+  if fam is None or fam == "udp" or fam == "lldp" or fam.startswith("udp-"): return ""
+  return ":" + FAMKEY.get(fam, fam)
+
+def family_frame (fam, src, dst, tag=0):
+  if fam == "lldp": return lldp_frame(src, dst)
+  if fam == "udp": return udp_frame(src, dst)
+  if fam.startswith("udp-"): return udp_frame(src, dst, tag, int(fam[4:]) - 42)
+  return FR.FAMILIES[fam](src, dst, tag)
+
+
+class ControlLoop (Exception): pass
+
+def capped_net (*args, **kw):
+  """netsim.Net with a step cap: one stimulus may take at most `max_rounds` rounds of the control-channel pump
+  (one round = every switch's pending bytes to the controller and the controller's pending bytes back).  An endless
+  packet-in / flow-mod exchange is thereby reported instead of hanging the check."""
+  from mc.netsim import Net
+  class CappedNet (Net):
+    max_rounds = 400
+    rounds = 0
+    def pump_control (self):
+      self.rounds += 1
+      if self.rounds > self.max_rounds:
+        raise ControlLoop("the control channel is still busy after %d pump rounds for one stimulus (endless packet-in / flow-mod / packet-out exchange)" % self.max_rounds)
+      return Net.pump_control(self)
+    def inject (self, *a): self.rounds = 0; return Net.inject(self, *a)
+    def inject_burst (self, *a): self.rounds = 0; return Net.inject_burst(self, *a)
+    def sweep (self): self.rounds = 0; return Net.sweep(self)
+  return CappedNet(*args, **kw)
 
 
 CONFIGS = {
@@ -50,6 +94,10 @@ CONFIGS = {
   "2sw": dict(nports=[3, 4], links=[((0, 3), (1, 3))], hosts={1: (0, 1), 2: (0, 2), 3: (1, 1)}, spare=(1, 4)),
   # one switch; additionally bursts: several frames arrive before the controller has answered the first
   "1swb": dict(nports=[4], links=[], hosts={1: (0, 1), 2: (0, 2), 3: (0, 3)}, spare=(0, 4), burst=True),
+  # the frame-family plans: the first stimulus of a history picks a frame family (or a boundary length / a group
+  # address around the bridge-filtered block), the rest of the history stays inside that family
+  "1swf": dict(nports=[4], links=[], hosts={1: (0, 1), 2: (0, 2), 3: (0, 3)}, spare=(0, 4), families=True, peer=2),
+  "2swf": dict(nports=[3, 4], links=[((0, 3), (1, 3))], hosts={1: (0, 1), 2: (0, 2), 3: (1, 1)}, spare=(1, 4), families=True, peer=3),
   "3sw": dict(nports=[3, 3, 4], links=[((0, 3), (1, 2)), ((1, 3), (2, 3))], hosts={1: (0, 1), 2: (1, 1), 3: (2, 1)}, spare=(2, 4)),
 }
 
@@ -72,6 +120,10 @@ def stimuli (cfg):
         for d2 in ds:
           if d1 != d2: out.append(("burst", s, d1, d2))
       out.append(("burst", s, ds[0], ds[1], ds[2]))
+      # two and three frames of ONE conversation before the controller answers the first (same destination: the
+      # second packet-in repeats the flow-mod; every buffer must still be released, every frame delivered once)
+      for d1 in ds: out.append(("burst", s, d1, d1))
+      out.append(("burst", s, ds[0], ds[0], ds[0]))
     # a long burst: its packet-ins add up to more than one 2048-byte read of the controller connection, so one of
     # them straddles two reads with complete messages in front of it
     ds = ["h2", "h3", "bcast", "unknown"]
@@ -79,11 +131,30 @@ def stimuli (cfg):
   return out
 
 
+def family_stimuli (cfg, fam, families):
+  """Alphabet of the family plans.  fam None (no family frame sent yet in this history): the wide alphabet, one
+  stimulus per (family, role); otherwise the narrow one inside the family."""
+  P = cfg["peer"]
+  if fam is not None:
+    return [("tx", 1, "h%d" % P, fam), ("tx", P, "h1", fam), ("tx", 1, "bcast", fam), ("tx", 4, "h1", fam), ("move", 1), ("tick", 11)]
+  out = []
+  for f in families:
+    for s, d in ((1, "h%d" % P), (P, "h1"), (1, "bcast"), (1, "mcast"), (1, "unknown"), (4, "h1"), (1, "stp")):
+      out.append(("tx", s, d, f))
+  # every address of 01:80:c2:00:00:00-1f (00-0f are bridge-filtered, 10-1f are not) and the near misses
+  for n in range(0x20): out.append(("tx", 1, "g:0180c20000%02x" % n, "udp"))
+  for g in NEAR_LINK_LOCAL: out.append(("tx", 1, "g:" + g, "udp"))
+  # LLDP to the other two standard LLDP destinations (nearest non-TPMR bridge, nearest customer bridge)
+  out += [("tx", 1, "g:0180c2000003", "lldp"), ("tx", 1, "g:0180c2000000", "lldp")]
+  return out
+
+
 class World (object):
-  def __init__ (self, cname, buffers):
-    from mc.netsim import Net
+  def __init__ (self, cname, buffers, families=None):
+    Net = capped_net
     from mc.env import VClock
     self.cfg = CONFIGS[cname]
+    self.buffers = buffers
     self.clock = VClock(5000.0)
     def comps (net):
       import pox.forwarding.l2_learning as l2
@@ -99,14 +170,18 @@ class World (object):
     self.hidden = [dict() for _ in self.cfg["nports"]]
     self.bad = []
     self.tag = 0
+    self.fam = None                           # family plans: the family this history is confined to
+    self.families = tuple(families) if families is not None else FAMILIES_Q
 
   def fail (self, clause, what): self.bad.append(("%s:%s" % (PID, clause), what))
 
   def ops (self):
+    if self.cfg.get("families"): return family_stimuli(self.cfg, self.fam, self.families)
     return stimuli(self.cfg)
 
   def dst_mac (self, d):
     if d.startswith("h"): return mac(int(d[1:]))
+    if d.startswith("g:"): return bytes.fromhex(d[2:])
     return dict(unknown=UNKNOWN, bcast=BCAST, mcast=MCAST, stp=STP, lldp=LLDP_DST)[d]
 
   def apply (self, op):
@@ -114,7 +189,10 @@ class World (object):
     net = self.net
     if op[0] == "tick":
       self.clock.advance(op[1])
-      net.sweep()
+      try:
+        net.sweep()
+      except ControlLoop as e:
+        self.fail("packet-in-loop", "expiry sweep: %s" % e); return ("packet-in-loop",)
       self.check_buffers()
       return ("tick", sum(len(st.sw.table) for st in net.sw))
     if op[0] == "move":
@@ -124,15 +202,25 @@ class World (object):
         self.where[op[1]] = self.cfg["hosts"][op[1]]; self.moved = False
       return ("move", self.where[op[1]])
     if op[0] == "burst": return self.apply_burst(op)
-    _, s, d = op
+    s, d = op[1], op[2]
+    fam = op[3] if len(op) > 3 else None
     if s == 4: self.where[4] = self.where[1]
     src = mac(s)
     dm = self.dst_mac(d)
     self.tag = (self.tag + 1) & 0xff
-    frame = lldp_frame(src) if d == "lldp" else udp_frame(src, dm)
+    if fam is None:
+      frame = lldp_frame(src) if d == "lldp" else udp_frame(src, dm)
+    else:
+      frame = family_frame(fam, src, dm)
+      # an LLDP / group-address probe is followed by plain frames
+      self.fam = "udp" if fam == "lldp" else fam
+    fk = famkey(fam)
     i, p = self.where[s]
     try:
       trace, delivered = net.inject(i, p, frame)
+    except ControlLoop as e:
+      self.fail("packet-in-loop" + fk, "switch %d, %s frame %s->%s in port %d (%d buffers): %s" % (i + 1, fam or "udp", src.hex()[-2:], dm.hex(), p, self.buffers, e))
+      return ("packet-in-loop",)
     except RuntimeError as e:
       self.fail("loop", str(e)); return ("loop",)
     obs = []
@@ -144,7 +232,9 @@ class World (object):
     for (sw, port, f) in delivered:
       if (sw, port) in seenp: self.fail("delivered-twice", "host port %d of switch %d received the frame twice" % (port, sw + 1))
       seenp.add((sw, port))
-      if f != frame: self.fail("frame-altered", "a host received a frame that differs from the one sent")
+      if f != frame:
+        self.fail("frame-altered" + fk, "a host received a frame that differs from the one sent"
+                  + (" (%s frame of %d bytes, received %d bytes%s)" % (fam, len(frame), len(f), "" if len(f) != len(frame) else ", first difference at byte %d" % next(k for k in range(len(f)) if f[k] != frame[k])) if fam else ""))
     self.check_buffers()
     return ("tx", tuple(obs), tuple(sorted(seenp)))
 
@@ -160,6 +250,8 @@ class World (object):
     i, p = self.where[s]
     try:
       recs, trace, delivered = net.inject_burst(i, [(p, f) for f in frames])
+    except ControlLoop as e:
+      self.fail("packet-in-loop", "switch %d, burst %r from host %d: %s" % (i + 1, dsts, s, e)); return ("packet-in-loop",)
     except RuntimeError as e:
       self.fail("loop", str(e)); return ("loop",)
     obs = []
@@ -238,7 +330,7 @@ class World (object):
       learn.append(sorted((str(k), v) for l in self._ls(c) for k, v in l.macToPort.items()))
     return (tabs, learn, [sorted((k, tuple(v)) for k, v in s.items()) for s in self.seen],
             [sorted((k, v or "") for k, v in s.items()) for s in self.hidden], sorted(self.where.items()),
-            self.moved, [tuple(x is not None for x in st.sw._packet_buffer) for st in self.net.sw])
+            self.moved, [tuple(x is not None for x in st.sw._packet_buffer) for st in self.net.sw], self.fam)
 
   def _ls (self, con):
     # the LearningSwitch objects listening on this connection
@@ -251,19 +343,26 @@ class World (object):
     return out
 
 
-def make_expand (cname, buffers, root=()):
+def make_expand (cname, buffers, root=(), families=None):
   def expand (h):
-    w = World(cname, buffers)
+    w = World(cname, buffers, families)
     out = None
     for op in root: w.apply(op)
     for op in h: out = w.apply(op)
     return dict(key=w.key(), ops=w.ops(), bad=w.bad if h else [], out=out,
-                replay_extra=dict(config=cname, buffers=buffers, root=[list(o) for o in root]))
+                replay_extra=dict(config=cname, buffers=buffers, root=[list(o) for o in root],
+                                  families=list(families) if families is not None else None))
   return expand
 
 
 # non-initial states to start from: flows cached in both directions and already hit on the switch's fast path
 ROOTS = [(("tx", 1, "h2"), ("tx", 2, "h1"), ("tx", 1, "h2"), ("tx", 2, "h1"), ("tx", 1, "h2"))]
+
+
+def family_root (cname, rname):
+  P = CONFIGS[cname]["peer"]
+  a, b = ("tx", 1, "h%d" % P), ("tx", P, "h1")
+  return {"nothing-known": (), "both-known": (("tx", P, "bcast"), ("tx", 1, "bcast")), "flows-hit": (a, b, a, b, a)}[rname]
 
 
 def run (cfg):
@@ -273,21 +372,47 @@ def run (cfg):
   depth = cfg.pick(5, 7)
   plans = [("1sw", 4, depth), ("1sw", 0, depth), ("2sw", 4, depth), ("2sw", 0, depth - 1), ("1swb", 1, depth - 2), ("1swb", 2, depth - 2)]
   if not cfg.quick: plans += [("3sw", 4, depth - 1), ("2sw", 1, depth - 1)]
-  for cname, buffers, d in plans:
+  only = getattr(cfg, "only", None)          # debugging: --only families | base
+  for cname, buffers, d in (plans if only != "families" else []):
     bfs(make_expand(cname, buffers), d, rep, workers=cfg.workers, seed=cfg.seed, max_states=cfg.pick(200000, 2000000), chunk=16)
-  for root in ROOTS:
+  for root in (ROOTS if only != "families" else []):
     for cname in ("1sw", "2sw"):
       bfs(make_expand(cname, 4, root), depth - 1, rep, workers=cfg.workers, seed=cfg.seed, max_states=cfg.pick(200000, 2000000), chunk=16)
   rep.extra["roots"] = [[list(o) for o in r] for r in ROOTS]
+  # frame families: the first stimulus picks the family, the history stays in it
+  x = cfg.pick(0, 1)
+  fplans = []
+  for b in (4, 0):
+    fplans += [("1swf", b, "nothing-known", 3 + x), ("1swf", b, "both-known", 4 + x), ("1swf", b, "flows-hit", 2 + x), ("2swf", b, "both-known", 3 + x)]
+  if not cfg.quick:
+    fplans += [("1swf", 1, "both-known", 4), ("2swf", 4, "nothing-known", 3), ("2swf", 0, "nothing-known", 3), ("2swf", 4, "flows-hit", 2), ("2swf", 0, "flows-hit", 2)]
+  for cname, buffers, rname, d in (fplans if only != "base" else []):
+    bfs(make_expand(cname, buffers, family_root(cname, rname), FAMILIES_Q), d, rep, workers=cfg.workers, seed=cfg.seed,
+        max_states=cfg.pick(200000, 2000000), chunk=16)
+  rep.extra["family_plans"] = [list(p) for p in fplans]
+  rep.extra["families"] = list(FAMILIES_Q)
   rep.rule = ("breadth-first search with state matching over all sequences of <=%d host stimuli {frame from each of 3 hosts to each "
               "other host / an unknown unicast address / broadcast / IPv4 multicast / 01:80:c2:00:00:00 / LLDP, host 1 moves to a spare port "
               "and back, clock +11 s and +31 s followed by an expiry sweep; in the 1swb plans also bursts of 2-3 frames (>128 bytes) that arrive before "
               "the controller answers, with 1 or 2 buffer slots} on %s, switch buffering on (4 slots) and off; every dataplane "
               "arrival at every switch is judged against the ideal learning bridge; additionally depth-1 searches on 1sw/2sw from a state with flows cached "
-              "in both directions and already hit; distinct = (last stimulus, per-arrival emissions)"
-              % (depth, ", ".join("%s/%d buffers depth %d" % p for p in plans)))
-  rep.bound = dict(depth=depth, plans=[list(p) for p in plans])
+              "in both directions and already hit; the 1swb bursts include 2 and 3 frames of one conversation (same destination).  "
+              "FRAME FAMILIES (plans %s; roots: nothing known / hosts 1 and P known, no flows / flows 1<->P cached in both directions and hit; "
+              "P = host 2 on 1swf, host 3 behind the second switch on 2swf): the first stimulus of a history is any of {frame of family F "
+              "from host 1 to P / from P to 1 / to broadcast / to an IPv4 multicast MAC / to an unknown address / from the hub host 4 to host 1 on the same port / to 01:80:c2:00:00:00} "
+              "for every F in {%s} (udp-N = plain UDP frame of N bytes total: Ethernet minimum, miss_send_len-1/+0/+1, Ethernet maximum), "
+              "or a plain frame to each of 01:80:c2:00:00:00..1f and to 5 group addresses one byte away from that block, or an LLDP frame to 01:80:c2:00:00:00/03; "
+              "the remaining stimuli stay in that family: {1->P, P->1, 1->broadcast, hub host 4->1, host 1 moves, clock +11 s and sweep}; switch buffering on (4 slots) and off.  "
+              "Every stimulus has a step cap of 400 control-channel pump rounds (an endless packet-in/flow-mod exchange is a violation, not a hang); "
+              "distinct = (last stimulus, per-arrival emissions)"
+              % (depth, ", ".join("%s/%d buffers depth %d" % p for p in plans),
+                 ", ".join("%s/%d buffers from %s depth %d" % p for p in fplans), ", ".join(FAMILIES_Q)))
+  rep.bound = dict(depth=depth, plans=[list(p) for p in plans], family_plans=[list(p) for p in fplans], families=len(FAMILIES_Q),
+                   control_rounds_per_stimulus=400)
   rep.assumptions = ["the controller reacts synchronously to each packet-in (single-threaded FIFO pump)",
+                     "every family frame is a valid frame of its family (lengths and checksums right, no trailer padding), assembled bytewise without POX; "
+                     "a history of the family plans uses one family (plus the plain frames of its root)",
+                     "a delivered frame must be byte-identical to the frame sent; for the non-plain families that clause is keyed per family (frame-altered:<family>)",
                      "state key = flow tables with ages, the controller's macToPort tables, buffer occupancy, host locations and the bridge model"]
   return rep
 
@@ -295,7 +420,7 @@ def run (cfg):
 def replay (cfg, data):
   from mc.env import boot
   boot()
-  w = World(data["config"], data["buffers"]); lines = []
+  w = World(data["config"], data["buffers"], data.get("families")); lines = []
   for op in data.get("root", []): w.apply(tuple(op))
   for op in data["history"]:
     out = w.apply(tuple(op))
